@@ -12,6 +12,7 @@ import (
 	"sync"
 	"testing"
 	"testing/synctest"
+	"time"
 
 	"github.com/pion/transport/v3/internal/vrt"
 )
@@ -81,6 +82,11 @@ func pkgGoroutines() int {
 
 func execUDP(t *testing.T, tr *vrt.Tracer, sc udpScenario, ex *vrt.Explorer) {
 	t.Helper()
+	stopWD := vrt.Watchdog(120*time.Second, func() {
+		tr.Close()
+		panic("verif: the run does not come to rest: a goroutine waits for a lock whose holder is blocked (recorded up to the last rest point)")
+	})
+	defer stopWD()
 	synctest.Test(t, func(t *testing.T) {
 		vrt.ResetFakeNet()
 		lc := ListenConfig{Backlog: 2, AcceptFilter: func(b []byte) bool { return len(b) > 4 && b[4] == 1 }}
